@@ -181,14 +181,16 @@ def post_extint(ctx, args, kwargs, result):
             # completely when enough streams are sacrificed
             Hext = Hfull[cr[k]:cr[k + 1], Hb.shape[1]:]
             rank_ext = np.linalg.matrix_rank(Hext)
-            if metric == "fixed" and int(Ns[k]) <= Nr[k] - rank_ext and \
+            aware = metric == "fixed" or (metric in ("capacity", "effective_throughput")
+                                          and int(Ns[k]) < Nt[k])
+            if aware and int(Ns[k]) <= Nr[k] - rank_ext and \
                     mu.noise_var is not None and mu.noise_var > 0:
                 gap = self.pe * np.linalg.svd(Hext, compute_uv=False)[rank_ext - 1] ** 2
                 scale = fro(W_k) * fro(Hext)
                 ctx.within("extint-removed", fro(W_k @ Hext),
                            1024 * EPS * n * scale * max(1.0, (self.pe * fro(Hext) ** 2 +
                                                               mu.noise_var) / gap),
-                           None, d(user=k, residual=fro(W_k @ Hext)))
+                           metric, d(user=k, residual=fro(W_k @ Hext)))
 
 
 monitors.attach_ensure(BD.BlockDiagonalizer, "block_diagonalize", post_bd(True))
